@@ -1,10 +1,10 @@
 (* Property C19: lattice geometry - index maps are bijections and couplings are enumerated exactly.
-   Only statements; every proof is `exact <lemma from Proofs/LatticeP.v, LatticeP2.v, LatticeP3.v ... LatticeP6.v>`.
+   Only statements; every proof is `exact <lemma from Proofs/LatticeP.v, LatticeP2.v, LatticeP3.v ... LatticeP7.v>`.
    All theorems hold for every dimension (1 + length (Lr lat)), all sizes, every unit cell size and
    every order array that lists distinct sites of the box (regular lattices: all of them; irregular
    lattices: a subset), finite and infinite MPS boundary conditions. *)
 From TenpyV Require Import Base.Prelude Model.Lattice Model.LatticeVals Model.LatticeMulti Model.LatticeTransform.
-From TenpyV Require Import Proofs.LatticeP Proofs.LatticeP2 Proofs.LatticeP3 Proofs.LatticeP4 Proofs.LatticeP5 Proofs.LatticeP6 Proofs.LatticeTransformP.
+From TenpyV Require Import Proofs.LatticeP Proofs.LatticeP2 Proofs.LatticeP3 Proofs.LatticeP4 Proofs.LatticeP5 Proofs.LatticeP6 Proofs.LatticeP7 Proofs.LatticeTransformP.
 Open Scope Z_scope.
 
 (* get_order with priority=None (C-style and every combination of snake flags) enumerates every lattice
@@ -149,6 +149,19 @@ Theorem T19_multi_couplings_operator_order : forall lat, wf lat -> forall ops ij
    (open0 lat = true -> Forall (fun s => s = 0) (shiftr lat)) ->
    (In ijkl (multi_ijkl lat ops) <-> In ijkl' (multi_ijkl lat ops'))).
 Proof. exact multi_operator_order. Qed.
+
+(* Infinite MPS: a coupling (i, j) listed by possible_couplings stands for its whole translation class - for every
+   integer m the MPS sites i + m * N_sites, j + m * N_sites are the sites u1, u2 of two cells connected by dx (the
+   index map moves by m * Ls[0] rings along x) - and it is the only member of that class that is listed
+   (with T19_couplings_exact: exactly one representative per class). *)
+Theorem T19_couplings_translation : forall lat, wf lat -> infinite lat = true -> forall u1 u2 dx0 dxr i j,
+  coupled lat u1 u2 dx0 dxr i j ->
+  (forall m, exists x0 xr y0 yr,
+     mps2lat lat (i + m * nsites lat) = Some (x0, xr, u1) /\
+     mps2lat lat (j + m * nsites lat) = Some (y0, yr, u2) /\
+     connected lat x0 xr dx0 dxr y0 yr) /\
+  (forall m, coupled lat u1 u2 dx0 dxr (i + m * nsites lat) (j + m * nsites lat) -> m = 0).
+Proof. exact couplings_translation. Qed.
 
 (* ---- non-vacuity and documented examples ---- *)
 
@@ -311,6 +324,18 @@ Proof.
   eapply perm_trans; [apply perm_swap|]. apply perm_skip. apply perm_swap.
 Qed.
 
+(* the hypothesis of T19_couplings_translation holds for the first pair of T19_example_couplings; MPS site 7 two
+   unit cells further *)
+Example T19_example_translation :
+  infinite ex_honey = true /\ coupled ex_honey 0 1 (-1) [-1] 12 6 /\
+  mps2lat ex_honey (7 + 2 * nsites ex_honey) = Some (1 + 2 * L0 ex_honey, [1], 1).
+Proof.
+  split; [reflexivity|]. split; [|vm_compute; reflexivity].
+  apply (proj2 (couplings_exact ex_honey T19_example_wf 0 1 (-1) [-1] ltac:(cbn; lia)
+                 (fun H => ltac:(discriminate H)))).
+  vm_compute. tauto.
+Qed.
+
 Print Assumptions T19_get_order_perm.
 Print Assumptions T19_get_order_priority_perm.
 Print Assumptions T19_index_inverse.
@@ -326,3 +351,4 @@ Print Assumptions T19_index_injective.
 Print Assumptions T19_couplings_reverse.
 Print Assumptions T19_two_operator_multi_coupling.
 Print Assumptions T19_multi_couplings_operator_order.
+Print Assumptions T19_couplings_translation.
